@@ -9,6 +9,7 @@ import (
 	"net/url"
 	"regexp"
 	"strings"
+	"sync"
 
 	jose "github.com/go-jose/go-jose/v4"
 
@@ -48,8 +49,9 @@ func (f *fault) String() string {
 }
 
 type cbStep struct {
-	Kind  string `json:"kind"` // before-login | login | callback | again | unknown-id | missing-id
-	Fault *fault `json:"fault,omitempty"`
+	Kind   string  `json:"kind"` // before-login | login | callback | again | unknown-id | missing-id
+	Fault  *fault  `json:"fault,omitempty"`
+	WFault *wfault `json:"write_fault,omitempty"` // the connection to the user agent breaks while this response is written
 }
 
 type chainSpec struct {
@@ -67,6 +69,7 @@ type chainSpec struct {
 	Trigger   string     `json:"trigger"`
 	RO        *roSpec    `json:"request_object,omitempty"`
 	AuthFault *fault     `json:"authorize_fault,omitempty"`
+	AuthWrite *wfault    `json:"authorize_write_fault,omitempty"`
 	Callbacks []cbStep   `json:"callbacks"`
 }
 
@@ -214,11 +217,16 @@ type stepLog struct {
 	Body     string    `json:"request_body,omitempty"`
 	Fault    string    `json:"fault,omitempty"`
 	Fired    int       `json:"faults_fired,omitempty"`
+	WFault   string    `json:"write_fault,omitempty"`
+	WBroken  bool      `json:"connection_broke,omitempty"` // the write fault fired: the user agent received only what is recorded below
+	WLost    int       `json:"bytes_not_delivered,omitempty"`
+	Forms    []string  `json:"form_actions,omitempty"` // action of every form of a 200 HTML page, in document order
 	Status   int       `json:"status"`
 	Location string    `json:"location,omitempty"`
 	RespBody string    `json:"response_body,omitempty"`
 	Outcome  string    `json:"outcome"`
 	Oracle   []candRes `json:"oracle,omitempty"`
+	respLen  int
 }
 
 type candRes struct {
@@ -237,6 +245,44 @@ type caseCtx struct {
 	// a request with a URI that is not allowed was accepted at /authorize: reported once, after the rest of the
 	// chain has been played, so that the witness shows where the user agent finally ended up
 	pendKey, pendWhat, pendWhy string
+	// history of this provider instance (both routers share it)
+	prior    []priorReq // redirect URIs of the other authorization requests of this case
+	prevPage *pageNote  // the last auto-submitting page (response_mode=form_post) this provider produced, delivered or not
+	// histogram / distinct / observed entries of this case, handed to ev in one go (ev serialises on one mutex)
+	counts map[[2]string]int64
+	dist   map[string]struct{}
+}
+
+func (cx *caseCtx) count(hist, bucket string) {
+	if cx.counts == nil {
+		cx.counts = map[[2]string]int64{}
+	}
+	cx.counts[[2]string{hist, bucket}]++
+}
+
+func (cx *caseCtx) distinct(key string) {
+	if cx.dist == nil {
+		cx.dist = map[string]struct{}{}
+	}
+	cx.dist[key] = struct{}{}
+}
+
+var observedOnce sync.Map
+
+func (cx *caseCtx) observed(name string) {
+	if _, dup := observedOnce.LoadOrStore(name, true); !dup {
+		cx.run.Observed(name)
+	}
+}
+
+func (cx *caseCtx) flush() {
+	for k, n := range cx.counts {
+		cx.run.CountN(k[0], k[1], n)
+	}
+	for k := range cx.dist {
+		cx.run.Distinct(k)
+	}
+	cx.counts, cx.dist = nil, nil
 }
 
 var otherClient = func() *vclient.Client {
@@ -383,16 +429,8 @@ func (cx *caseCtx) exec(spec chainSpec, router int) {
 	witness := func() map[string]any {
 		return map[string]any{"router": rn, "client": clientDump(client), "provider_config": cx.cfg, "chain_spec": spec, "steps": steps}
 	}
-	do := func(phase string, req *http.Request, lit, body string, f *fault) (*opdrv.Resp, *stepLog) {
-		w.Store.Arm(f.plan())
-		resp := w.Do(router, req)
-		fired := w.Store.Fired()
-		w.Store.Arm(nil)
-		sl := stepLog{Phase: phase, Request: req.Method + " " + lit, Body: brief(body, 6000), Status: resp.Status, Location: brief(resp.Location(), 6000),
-			RespBody: brief(resp.Body.String(), 400), Fired: fired}
-		if f != nil {
-			sl.Fault = fmt.Sprintf("%+v", *f)
-		}
+	do := func(phase string, req *http.Request, lit, body string, f *fault, wf *wfault) (*opdrv.Resp, *stepLog) {
+		resp, sl := cx.serve(router, phase, req, lit, body, f, wf)
 		steps = append(steps, sl)
 		return resp, &steps[len(steps)-1]
 	}
@@ -424,16 +462,17 @@ func (cx *caseCtx) exec(spec chainSpec, router int) {
 
 	// ---- authorize ----
 	req, lit, body := cx.buildAuthorize(spec)
-	resp, sl := do("authorize", req, lit, body, spec.AuthFault)
-	run.Count("trigger", spec.Trigger)
-	run.Count("uri_kind", spec.Req.Kind)
+	resp, sl := do("authorize", req, lit, body, spec.AuthFault, spec.AuthWrite)
+	cx.count("trigger", spec.Trigger)
+	cx.count("uri_kind", spec.Req.Kind)
 	if spec.Req.Kind == "meta-subst" && client != nil {
 		defer func() {
-			run.Count("meta_subst:"+rn, fmt.Sprintf("glob_opt_in=%v -> %s", client.Globs, steps[0].Outcome))
+			cx.count("meta_subst:"+rn, fmt.Sprintf("glob_opt_in=%v -> %s", client.Globs, steps[0].Outcome))
 		}()
 	}
-	run.Distinct(dims("authorize", spec.Trigger))
+	cx.distinct(dims("authorize", spec.Trigger))
 	out := cx.judge(rn, "authorize", spec, resp, sl, client, cands, witness)
+	cx.notePage(spec, client, cands, rn, "authorize", sl)
 	if cx.sample {
 		run.SampleKind("authorize:"+out, witness())
 	}
@@ -453,22 +492,23 @@ func (cx *caseCtx) exec(spec chainSpec, router int) {
 			continue
 		case "unknown-id":
 			r := w.NewRequest("GET", "/authorize/callback", url.Values{"id": {"ar-987654321"}})
-			cresp, csl = do(phase, r, r.URL.String(), "", st.Fault)
+			cresp, csl = do(phase, r, r.URL.String(), "", st.Fault, st.WFault)
 		case "missing-id":
 			r := w.NewRequest("GET", "/authorize/callback", url.Values{})
-			cresp, csl = do(phase, r, r.URL.String(), "", st.Fault)
+			cresp, csl = do(phase, r, r.URL.String(), "", st.Fault, st.WFault)
 		default:
 			r := w.NewRequest("GET", "/authorize/callback", url.Values{"id": {id}})
-			cresp, csl = do(phase, r, r.URL.String(), "", st.Fault)
+			cresp, csl = do(phase, r, r.URL.String(), "", st.Fault, st.WFault)
 		}
 		trig := st.Fault.String()
-		run.Count("callback_step", st.Kind+"+"+st.Fault.String())
-		run.Distinct(dims(phase, trig))
+		cx.count("callback_step", st.Kind+"+"+st.Fault.String())
+		cx.distinct(dims(phase, trig))
 		cc := cands
 		if st.Kind == "unknown-id" || st.Kind == "missing-id" {
 			cc = nil // no authorization request is referenced: nothing may be redirected anywhere
 		}
 		out := cx.judge(rn, phase, spec, cresp, csl, client, cc, witness)
+		cx.notePage(spec, client, cands, rn, phase, csl)
 		if cx.sample {
 			run.SampleKind(phase+":"+out, witness())
 		}
@@ -501,15 +541,24 @@ func (cx *caseCtx) judge(rn, phase string, spec chainSpec, resp *opdrv.Resp, sl 
 		if cx.pendKey != "" && phase != "authorize" && strings.Contains(class, "-unregistered:") {
 			sl.Outcome = "VIOLATION (consequence of the accepted request) " + class
 			cx.pendWhy = class[strings.Index(class, "-unregistered:")+len("-unregistered:"):]
-			run.Count("violation_consequences", rn+" "+class)
+			cx.count("violation_consequences", rn+" "+class)
 			return
 		}
 		sl.Outcome = "VIOLATION " + class
 		run.Violation("C03:"+rn+":"+class, int64(cx.idx), what, witness())
 	}
+	// seq: this response is an auto-submitting page and an earlier page of that kind was produced by the same provider;
+	// what became of the earlier one (delivered / connection broke) is part of the history that is judged
+	seq := ""
 	outcome := func(o string) string {
 		sl.Outcome = o
-		run.Count("outcome:"+rn, phaseClass(phase)+" "+o)
+		cx.count("outcome:"+rn, phaseClass(phase)+" "+o)
+		if sl.WBroken {
+			cx.count("outcome_when_connection_broke:"+rn, phaseClass(phase)+" "+o)
+		}
+		if seq != "" {
+			cx.count("form_post_sequence:"+rn, seq+" -> "+o)
+		}
 		return o
 	}
 	if resp.Panic != nil {
@@ -551,42 +600,59 @@ func (cx *caseCtx) judge(rn, phase string, spec chainSpec, resp *opdrv.Resp, sl 
 		loc := resp.Location()
 		if loginID(loc) != "" {
 			if phase != "authorize" {
-				run.Count("grey", "login-redirect-from-callback")
+				cx.count("grey", "login-redirect-from-callback")
 				return outcome("login-redirect")
 			}
 			if !anyOK {
 				cx.pendKey, cx.pendWhy = "C03:"+rn+":accepted-unregistered:", firstWhy
 				cx.pendWhat = fmt.Sprintf("authorization request with redirect_uri %q (oracle: %s) was accepted and the user agent was redirected to the login UI; the statement demands a direct error page (see the later steps for where the user agent was finally sent)", cands, firstWhy)
 				sl.Outcome = "VIOLATION accepted-unregistered:" + firstWhy
-				run.Count("outcome:"+rn, "authorize login-redirect-for-unregistered")
+				cx.count("outcome:"+rn, "authorize login-redirect-for-unregistered")
 				return "login-redirect-for-unregistered"
 			}
-			run.Observed("accepted:" + rn)
+			cx.observed("accepted:" + rn)
 			return outcome("login-redirect")
 		}
 		delivery, target = "redirect", loc
 		ar = opdrv.DecodeAuthResponse(resp)
-	case resp.Status == 200 && strings.Contains(resp.Body.String(), "<form"):
+	case resp.Status == 200 && len(sl.Forms) > 0:
+		// an HTML page with at least one complete <form> start tag (a page cut off inside the tag has none)
 		ar = opdrv.DecodeAuthResponse(resp)
 		delivery, target = "form_post", ar.Target
+		if p := cx.prevPage; p != nil {
+			seq = p.label(client, cands)
+			if p.Broken {
+				cx.observed("form_post-after-broken-write:" + rn)
+				if client != nil && p.ClientID != client.ID {
+					cx.observed("form_post-after-broken-write-of-other-client:" + rn)
+				}
+			}
+		}
+	case sl.WBroken && resp.Status == 200:
+		// the connection broke before a usable page arrived: the user agent is sent nowhere
+		cx.count("grey", "connection-broke-before-a-form-arrived")
+		return outcome("connection-broke-nothing-delivered")
 	default:
 		// answered directly (error page / JSON error): never an alarm
 		code := directError(resp)
-		run.Count("direct_answer:"+rn, fmt.Sprintf("%d %s", resp.Status, code))
+		if sl.WBroken {
+			code = "cut-off"
+		}
+		cx.count("direct_answer:"+rn, fmt.Sprintf("%d %s", resp.Status, code))
 		if !anyOK {
-			run.Count("not_allowed_answered_directly", firstWhy)
-			run.Observed("refused-unregistered:" + rn)
+			cx.count("not_allowed_answered_directly", firstWhy)
+			cx.observed("refused-unregistered:" + rn)
 			if spec.Req.Kind == "meta-subst" {
-				run.Observed("meta-subst-refused:" + rn)
+				cx.observed("meta-subst-refused:" + rn)
 			}
 			if globErr {
-				run.Count("malformed_glob_answered_directly:"+rn, fmt.Sprintf("%d %s", resp.Status, code))
-				run.Observed("malformed-glob-decided:" + rn)
+				cx.count("malformed_glob_answered_directly:"+rn, fmt.Sprintf("%d %s", resp.Status, code))
+				cx.observed("malformed-glob-decided:" + rn)
 			}
 			return outcome("direct-error(uri-not-allowed)")
 		}
 		if phase == "authorize" && spec.Trigger == "none" {
-			run.Count("grey", "allowed-uri-refused-without-trigger:"+code)
+			cx.count("grey", "allowed-uri-refused-without-trigger:"+code)
 		}
 		return outcome("direct-error(uri-allowed)")
 	}
@@ -594,7 +660,7 @@ func (cx *caseCtx) judge(rn, phase string, spec chainSpec, resp *opdrv.Resp, sl 
 	if delivery == "form_post" && strings.HasPrefix(target, "#ZgotmplZ") {
 		// html/template replaced an action with an unsafe scheme by "#ZgotmplZ": the form posts to the provider's own
 		// page, no foreign URI receives anything (the loss of the response is C11's finding D12)
-		run.Count("grey", "form-action-neutralised-by-template")
+		cx.count("grey", "form-action-neutralised-by-template")
 		return outcome("form_post-stays-on-provider")
 	}
 	// a redirect or an auto-submitting form: where does it send the user agent?
@@ -609,7 +675,29 @@ func (cx *caseCtx) judge(rn, phase string, spec chainSpec, resp *opdrv.Resp, sl 
 	if errCode != "" {
 		what = "error=" + errCode
 	}
+	// further forms of the page: document.forms[0] is the one the page submits; a second form is inert markup, the
+	// statement does not speak about it (grey), but it is counted with where it points
+	if delivery == "form_post" {
+		for _, a := range sl.Forms[1:] {
+			k := "secondary-form-to-foreign-uri"
+			for _, c := range cands {
+				if sameTarget(a, c) {
+					k = "secondary-form-to-requested-uri"
+				}
+			}
+			cx.count("grey", k)
+		}
+	}
 	if len(matched) == 0 {
+		// the target of ANOTHER authorization request handled by this provider (an earlier chain, another flow of the
+		// history): a response crossed over from one request to another
+		for _, o := range cx.prior {
+			if sameTarget(target, o.URI) {
+				violate(delivery+"-target-of-another-request", fmt.Sprintf("user agent sent (%s) to %q: that is not one of the redirect URIs of this request %q but the redirect_uri of another authorization request (%s, client %s) handled by the same provider; previous auto-submitting page of this provider: %s",
+					what, brief(target, 300), cands, o.Label, o.ClientID, cx.prevPage.describe()))
+				return outcome("target-of-another-request")
+			}
+		}
 		if phase == "callback:unknown-id" || phase == "callback:missing-id" {
 			violate(delivery+"-without-auth-request", fmt.Sprintf("callback that references no authorization request sent the user agent to %q", brief(target, 300)))
 			return outcome("redirect-without-auth-request")
@@ -642,29 +730,29 @@ func (cx *caseCtx) judge(rn, phase string, spec chainSpec, resp *opdrv.Resp, sl 
 		return outcome(delivery + "-to-unregistered")
 	}
 	// held: document what was seen
-	run.Count("allowed_how", ok.How+" scheme="+schemeLabel(ok.Scheme))
+	cx.count("allowed_how", ok.How+" scheme="+schemeLabel(ok.Scheme))
 	if ok.Grey != "" {
-		run.Count("grey", ok.Grey)
+		cx.count("grey", ok.Grey)
 	}
 	if errCode != "" {
-		run.Count("redirected_error:"+rn, errCode)
-		run.Observed("error-redirect:" + rn)
+		cx.count("redirected_error:"+rn, errCode)
+		cx.observed("error-redirect:" + rn)
 	} else {
 		kind := "code"
 		if ar.Params.Get("id_token") != "" {
 			kind = "implicit"
 		}
-		run.Count("success_delivery:"+rn, kind+" via "+ar.Mode)
-		run.Observed("success-" + kind + ":" + rn)
+		cx.count("success_delivery:"+rn, kind+" via "+ar.Mode)
+		cx.observed("success-" + kind + ":" + rn)
 		if delivery == "form_post" {
-			run.Observed("success-form_post:" + rn)
+			cx.observed("success-form_post:" + rn)
 		}
 	}
 	switch ok.How {
 	case "glob":
-		run.Observed("glob-redirect")
+		cx.observed("glob-redirect")
 	case "loopback-twin", "loopback-twin-loose":
-		run.Observed("loopback-twin-redirect")
+		cx.observed("loopback-twin-redirect")
 	}
 	if errCode != "" {
 		return outcome(delivery + "-error-to-allowed(" + ok.How + ")")
@@ -761,11 +849,20 @@ func runCase(run *ev.Run, idx int, chains int) {
 	w.Store.AddClientKey(otherClient.ID, clientKey)
 	cx := &caseCtx{run: run, idx: idx, w: w, reg: reg, other: otherClient, sample: idx%7 == 0,
 		cfg: map[string]any{"request_object_supported": cfg.RequestObjectSupported, "session_state": sess}}
-	run.Count("registration", fmt.Sprintf("%s dev=%v globs=%s", appName(reg.C), reg.C.Dev, reg.GlobClass))
+	defer cx.flush()
+	cx.count("registration", fmt.Sprintf("%s dev=%v globs=%s", appName(reg.C), reg.C.Dev, reg.GlobClass))
+	// write faults and histories are drawn from their own stream: the chains above stay what they were
+	r2 := run.CaseRand(5, idx)
 	for j := 0; j < chains; j++ {
 		spec := genChain(r, reg)
+		addWriteFaults(r2, &spec)
 		for router := 0; router < 2; router++ {
 			cx.exec(spec, router)
 		}
+		cx.remember(fmt.Sprintf("chain %d", j), spec)
+	}
+	w.Store.AddClient(peerClient)
+	for h := 0; h < histories; h++ {
+		cx.execHistory(genHistory(r2, reg), h)
 	}
 }
